@@ -81,11 +81,16 @@ def judge(c, progs, source):
         noconv = optimizer_lines(b["opt"], ["NOCONVFOLD " + raw[i]["tree"] for (_, i, _, _) in suspects]) if b.get("opt") else [None] * len(suspects)
         usable = [t if (t and t.startswith("(")) else "( File t=- l=0:0-0:0 )" for t in noconv]
         mno = E.run_model("mech", usable, evals=[evo[k] for (k, _, _, _) in suspects])
-        for (k, i, o_raw, o_opt), t, m in zip(suspects, noconv, mno):
+        # the faithful side of the attribution runs on the tree the *model's* optimizer (conversion fold on) makes from the raw tree, not on
+        # the implementation's optimised tree: a rewrite the implementation made and the model's optimizer does not know must not be
+        # explained away by the recorded finding
+        own = [otrees[k] if (otrees[k] and otrees[k].startswith("(")) else "( File t=- l=0:0-0:0 )" for (k, _, _, _) in suspects]
+        mown = E.run_model("mech", own, evals=[evo[k] for (k, _, _, _) in suspects])
+        for (k, i, o_raw, o_opt), t, m, mo_ in zip(suspects, noconv, mno, mown):
             key = None
-            if t and t.startswith("(") and m is not None and mopt[k] is not None:
+            if t and t.startswith("(") and m is not None and mo_ is not None and otrees[k] and otrees[k].startswith("("):
                 a = E.canon_obs(*E.split_model(m))
-                bb = E.canon_obs(*E.split_model(mopt[k]))
+                bb = E.canon_obs(*E.split_model(mo_))
                 if a == o_raw[:2] and bb == o_opt[:2]:
                     key = KEY
             if key is None:
